@@ -86,7 +86,7 @@ MainPhase(S, mi, ni, k, P, sel) ==
                     IF ui # 0 THEN [S EXCEPT !.ch[c + 1].u[ui].s = BitSet(@, Pedal)] ELSE S
              S2 == [S1 EXCEPT !.mc[mi].notes[ni].ph = RemoveAt(@, k)]                               \* phys_erase_at
          IN MainPhase(S2, mi, ni, k, P, sel)
-    ELSE LET S1 == IF P.pitch /\ (ui = 0 \/ us[ui].s = 0) THEN [S EXCEPT !.ch[c + 1].k = TRUE] ELSE S   \* synth.noteOn(c, tone)
+    ELSE LET S1 == IF P.pitch /\ (ui = 0 \/ ~BitHas(us[ui].s, Pedal)) THEN [S EXCEPT !.ch[c + 1].k = TRUE] ELSE S   \* synth.noteOn(c, tone)
          IN MainPhase(S1, mi, ni, k + 1, P, sel)
 
 EraseNote(S, mi, ni, cleanup) ==
